@@ -150,17 +150,29 @@ def abstract_model(case):
     names = {s['name'] for s in species}
     # ---- BEPs
     beps = []
-    for k in range(rnd.randint(0, 3 if big else 2)):
-        beps.append({'name': None if case.get('bep_names') == 'none' else 'BEP%d' % k,
-                     'slope': rnd.choice([0.29, 0.52, 0.71, 1.0]),
-                     'intercept': rnd.choice([19.78, 23.23, 23.69, 5.0]),
+    pattern = case.get('beps')          # None | 'unnamed' | 'mixed' | 'auto_ns' | 'named'
+    nbep = rnd.randint(2, 3) if pattern else rnd.randint(0, 3 if big else 2)
+    slopes = rnd.sample([0.29, 0.52, 0.71, 1.0], 3)         # distinct relationships are distinct objects
+    intercepts = rnd.sample([19.78, 23.23, 23.69, 5.0], 3)
+    for k in range(nbep):
+        if case.get('bep_names') == 'none' or pattern == 'unnamed':
+            nm = None
+        elif pattern == 'mixed':
+            nm = [None, 'NH-H', None][(k + case['seed']) % 3] if k < 2 else rnd.choice([None, 'C-O'])
+            if k == 1 and beps[0]['name'] is None and nm is None and nbep == 2:
+                nm = 'NH-H'
+        elif pattern == 'auto_ns':
+            nm = ['b_0000', None, 'b_0001'][(k + case['seed']) % 3]
+        else:
+            nm = 'BEP%d' % k
+        beps.append({'name': nm, 'slope': slopes[k], 'intercept': intercepts[k],
                      'direction': rnd.choice(['cleavage', 'synthesis']),
                      'descriptor': rnd.choice(['delta_H', 'rev_delta_H'])})
     M['beps'] = beps
     # ---- reactions
     reactions = []
     ts_species = []
-    want_rx = case.get('n_reactions', rnd.randint(0, 12 if big else 5))
+    want_rx = case.get('n_reactions', rnd.randint(6, 12) if pattern else rnd.randint(0, 12 if big else 5))
     if case.get('size') == 'huge':
         want_rx = rnd.randint(25, 40)
 
@@ -212,8 +224,11 @@ def abstract_model(case):
                       Ea=rnd.choice([None, None, 10.631665896868167, 0.0]),
                       beta=rnd.choice([None, 1, 0.5]))
             r = rnd.random()
-            if r < 0.35 and beps:
-                rx['ts'] = {'kind': 'bep', 'index': rnd.randrange(len(beps))}
+            if r < (0.75 if pattern else 0.35) and beps:
+                # with a naming pattern every relationship gets used, by several reactions
+                nbu = sum(1 for q in reactions if (q['ts'] or {}).get('kind') == 'bep')
+                rx['ts'] = {'kind': 'bep', 'index': nbu % len(beps) if pattern and nbu < 2 * len(beps)
+                            else rnd.randrange(len(beps))}
                 rx['direction'] = direction
             elif r < 0.7:
                 tsn = 'TS%d(%s)' % (len(ts_species), t)
@@ -252,7 +267,7 @@ def abstract_model(case):
                       'name': ('u_i_%04d' % (k + 20)) if rnd.random() < 0.25 else None})
     M['interactions'] = inter
     M['via'] = case.get('via') or rnd.choice(['organize', 'organize', 'direct', 'incremental'])
-    if case.get('bep_names') == 'none' and M['via'] == 'organize':
+    if any(b['name'] is None for b in beps) and M['via'] == 'organize':
         M['via'] = 'direct'          # organize_phases compares reactions, which needs named BEPs
     M['ads_act_method'] = case.get('ads_act_method', 'get_H_act')
     return M
@@ -819,10 +834,22 @@ def _events(fmt, M, objs, proj, raised, f):
     for k, o in enumerate(proj['interactions']):
         e = _exp_inter(M, M['interactions'][k], f) if k < len(M['interactions']) else NOTFOUND
         ev.append({'ev': 'interaction', 'k': k + 1, 'obs': o, 'exp': e})
+    # every BEP entry is paired with ONE BEP object of the model: by its user name, otherwise (unnamed
+    # objects) by its slope among the objects not yet taken; `ek` = position of that object (first use)
+    taken = set()
     for k, o in enumerate(proj['beps']):
-        e = _exp_bep(M, used_beps[k], f) if k < len(used_beps) else NOTFOUND
-        # BEPs are written in order of first use
-        ev.append({'ev': 'bep', 'k': k + 1, 'obs': o, 'exp': e})
+        cand = [j for j in range(len(used_beps)) if j not in taken]
+        pick = next((j for j in cand if M['beps'][used_beps[j]]['name'] and M['beps'][used_beps[j]]['name'] == o['id']), None)
+        if pick is None:
+            unnamed = [j for j in cand if not M['beps'][used_beps[j]]['name']]
+            pick = next((j for j in unnamed if o['slope']['k'] == 'num'
+                         and o['slope']['num'] == to_dec(M['beps'][used_beps[j]]['slope'])),
+                        unnamed[0] if unnamed else None)
+        if pick is None:
+            ev.append({'ev': 'bep', 'k': k + 1, 'ek': 0, 'obs': o, 'exp': NOTFOUND})
+        else:
+            taken.add(pick)
+            ev.append({'ev': 'bep', 'k': k + 1, 'ek': pick + 1, 'obs': o, 'exp': _exp_bep(M, used_beps[pick], f)})
     sp_by = {s['name']: s for s in M['species']}
     for o in proj['species']:
         ev.append({'ev': 'species', 'obs': o,
@@ -960,6 +987,8 @@ def facts(case):
             'ads_gas_not_first': any(rx['ads'] and rx['lhs'][0][1].endswith(')') for rx in M['reactions']),
             'has_interactions': bool(M['interactions']),
             'unnamed_bep_used': any(M['beps'][k]['name'] is None for k in used),
+            'n_unnamed_beps_used': sum(1 for k in used if M['beps'][k]['name'] is None),
+            'n_beps_used': len(used),
             'energy_per_quantity': '%s/%s' % (M['units']['energy'], M['units']['quantity']),
             'P_is_default': M['P'] == 1.0, 'ads_act_method': M['ads_act_method'],
             'ids': case.get('ids', 'mixed')}
@@ -973,7 +1002,9 @@ def tags(case):
 RELEVANT = {('WellFormed', 'yaml'): ('shomate_with_sites',), ('WellFormed', 'cti'): ('has_nasa9',),
             ('UniqueIds', 'yaml'): ('ids',), ('UniqueIds', 'cti'): ('ids',),
             ('PhaseLists', 'yaml'): ('via',), ('PhaseLists', 'cti'): ('via',),
-            ('IdAssigned', 'cti'): ('unnamed_bep_used',), ('IdAssigned', 'yaml'): ('unnamed_bep_used',)}
+            ('IdAssigned', 'cti'): ('unnamed_bep_used',), ('IdAssigned', 'yaml'): ('unnamed_bep_used',),
+            ('EachBepOnce', 'yaml'): ('n_unnamed_beps_used',), ('EachBepOnce', 'cti'): ('n_unnamed_beps_used',),
+            ('DocumentsAgreeOnBeps', 'cti'): ('n_unnamed_beps_used',)}
 
 
 def event_tags(case, events, idxs, clause):
@@ -1034,7 +1065,16 @@ def models(ctx):
         if bad.ok or bad.violated is None:
             raise core.MachineryError('the counter id allocation should be rejected by OmkmIds.tla')
         ctx.notes.append('OmkmIds.tla rejects the r_%%04d counter allocation: %s violated' % bad.violated)
-    return [good, counter]
+    def beps():
+        ctx.model('OmkmBeps', 'MC_OmkmBeps', workers=2)
+
+    def beps_byname():
+        bad = ctx.model('OmkmBeps', 'MC_OmkmBeps_byname', workers=1, expect_ok=False)
+        if bad.ok or bad.violated is None:
+            raise core.MachineryError('BEP collection by name should be rejected by OmkmBeps.tla')
+        ctx.notes.append('OmkmBeps.tla rejects collecting BEPs by their name at collection time: %s violated'
+                         % bad.violated)
+    return [good, counter, beps, beps_byname]
 
 
 def generate(ctx, rnd):
@@ -1051,6 +1091,9 @@ def generate(ctx, rnd):
             c['n_iface'] = 0
         if k % 3 == 2:
             c['rewrite'] = True
+        if k % 4 == 1:
+            c['beps'] = ['unnamed', 'mixed', 'auto_ns', 'named', 'unnamed'][(k // 4) % 5]
+            c['size'] = 'big'
         if not ctx.quick and k % 10 == 9:
             c['size'] = 'huge'
         if k % 7 == 3:
